@@ -358,6 +358,8 @@ def scenario(fn, i, summ, assume_others_nonnull=True):
                             break
                 if done:
                     return
+            if v is not None:
+                v = resolve_conditional(v, state)
             if v is None:
                 val = "void"
             elif X.is_null_const(v) and (X.is_pointer(v) or X.is_pointer(X.strip(v))):
@@ -370,6 +372,28 @@ def scenario(fn, i, summ, assume_others_nonnull=True):
 
     flow.forward(cfg, frozenset(seed), transfer, refine=refine, visit=visit)
     return res
+
+
+def _contradicts(facts, state):
+    for f in facts:
+        if f[0] == "null" and ("nn", f[1]) in state:
+            return True
+        if f[0] == "nn" and ("null", f[1]) in state:
+            return True
+    return False
+
+
+def resolve_conditional(v, state, depth=0):
+    """`c ? a : b` whose condition the nullness facts of the state decide stands for the arm that is taken"""
+    s_ = X.strip(v)
+    if s_ is None or s_.get("k") != "cond" or depth > 4:
+        return v
+    c = s_["ch"][0]
+    if _contradicts(X.implied(c, True), state):
+        return resolve_conditional(s_["ch"][2], state, depth + 1)
+    if _contradicts(X.implied(c, False), state):
+        return resolve_conditional(s_["ch"][1], state, depth + 1)
+    return v
 
 
 def fatal_guarded_params(prog, fatal=("libast_fatal_error",)):
